@@ -86,7 +86,7 @@ class Engine(EngineBase):
                 "= the fault fired or the reader overlapped the write")
 
     def stubs(self):
-        return super().stubs() + ["RLock -> SimRLock (per simulated process)",
+        return super().stubs() + ["RLock -> SimRLock (per simulated process); synced_collections per-file lock table -> table that re-creates entries another simulated process moved",
                                   "reader / writer processes = baton-passing thread actors"]
 
     # ------------------------------------------------------------------
@@ -188,7 +188,7 @@ class Engine(EngineBase):
     def execute(self, sc, ctx):
         import signac
 
-        install_locks()
+        install_locks(shared_interpreter=True)
         install_pools(width=sc["knobs"].get("pool", 2))
         if not sc["knobs"].get("mt", True):
             signac.JSONDict.disable_multithreading()
